@@ -47,6 +47,16 @@ func (x *Exec) modLocs(st *State, old *State, ct *Contract, env map[string]Val) 
 			if e.Name == "clock" {
 				continue
 			}
+			if pv, ok := env["&"+e.Name]; ok && pv.K == VScalar {
+				// a variable captured by reference (closure): its cell
+				if pt, ok := pv.GoT.Underlying().(*types.Pointer); ok {
+					r := pv.T
+					cp := cellPrefix(pt.Elem())
+					x.registerPrefix(cp, pt.Elem())
+					out = append(out, modLoc{Prefix: cp, Ref: &r, T: pt.Elem()})
+					continue
+				}
+			}
 			x.errorf("%s: modifies %s not understood", ct.Key, src)
 		case ESel:
 			base, err := x.evalExpr(c, e.X)
@@ -121,6 +131,11 @@ func (x *Exec) modLocs(st *State, old *State, ct *Contract, env map[string]Val) 
 			case "content":
 				r := args[0].T
 				out = append(out, modLoc{Prefix: bytesArr, Ref: &r})
+			case "syncmap":
+				// syncmap(m): the contents of sync.Map m
+				x.smRegister()
+				r := args[0].T
+				out = append(out, modLoc{Prefix: "SM", Ref: &r})
 			case "tree":
 				// tree(t): the contents of radix tree t
 				x.rtRegister()
@@ -155,6 +170,12 @@ func (x *Exec) applyModifies(st *State, old *State, ct *Contract, env map[string
 		case m.Prefix == bytesArr:
 			f := x.fresh(st, "hvbytes", SStr)
 			x.writeComp(st, bytesArr, SStr, *m.Ref, f)
+		case m.Prefix == "SM":
+			a := x.heapCur(st, smHas, smHasSort)
+			x.heapSet(st, smHas, StoreT(a, *m.Ref, x.fresh(st, "hvsmh", arrSort(SInt, SBool))))
+			b := x.heapCur(st, smVal, smValSort)
+			x.heapSet(st, smVal, StoreT(b, *m.Ref, x.fresh(st, "hvsmv", arrSort(SInt, SInt))))
+			st.Dirty[smHas], st.Dirty[smVal] = true, true
 		case m.Prefix == "RT":
 			x.rtSetHas(st, *m.Ref, x.fresh(st, "hvrth", arrSort(SStr, SBool)))
 			x.rtSetVal(st, *m.Ref, x.fresh(st, "hvrtv", arrSort(SStr, SInt)))
